@@ -162,13 +162,26 @@ fn oracle(c: &GalCase) -> Verdict {
     let direct = c.keymode == 0 || c.keymode == 3 || kind == GK::ApplyGalois;
     let keys = match mk_keys(direct, c.keymode >= 2) { Ok(k) => k, Err(p) => return fail_key(key, format!("Galois key generation panicked (direct={direct}): {p}")) };
     let napps = if direct || !matches!(kind, GK::RotateRows | GK::RotateVector) { 1 } else { heathcliff::util::naf(step as i32).into_iter().filter(|d| d.unsigned_abs() as usize != half).count().max(1) };
-    let out = match catch(|| match kind {
+    // value-returning form, or (one case in three) the destination form into a new object / into a previously used first-level buffer
+    let form = (c.level_sel >> 3) % 3;
+    let out = match catch(|| if form == 0 { match kind {
         GK::ApplyGalois => ev.apply_galois_new(&ct, g, &keys),
         GK::RotateRows => ev.rotate_rows_new(&ct, step, &keys),
         GK::RotateColumns => ev.rotate_columns_new(&ct, &keys),
         GK::RotateVector => ev.rotate_vector_new(&ct, step, &keys),
         GK::Conjugate => ev.complex_conjugate_new(&ct, &keys),
         _ => unreachable!(),
+    } } else {
+        let mut d = if form == 1 { Ciphertext::new() } else { w.encryptor.encrypt_zero_new() };
+        match kind {
+            GK::ApplyGalois => ev.apply_galois(&ct, g, &keys, &mut d),
+            GK::RotateRows => ev.rotate_rows(&ct, step, &keys, &mut d),
+            GK::RotateColumns => ev.rotate_columns(&ct, &keys, &mut d),
+            GK::RotateVector => ev.rotate_vector(&ct, step, &keys, &mut d),
+            GK::Conjugate => ev.complex_conjugate(&ct, &keys, &mut d),
+            _ => unreachable!(),
+        }
+        d
     }) { Ok(c) => c, Err(p) => return fail_key(key, format!("{:?} (g={g}, step={step}, level {level}, direct key {direct}) panicked on valid operands: {p}", kind)) };
     for _ in 0..napps { lv = nm.keyswitch(lv, klev); }
     check!(out.is_valid_for(&w.context) && out.size() == 2 && out.parms_id() == &w.levels[level].parms_id && out.is_ntt_form() == ct.is_ntt_form(), "{:?}: result metadata wrong", kind);
